@@ -70,7 +70,12 @@ class FileWriter(AbstractWriter):
 
         try:
             fd, tfile = tempfile.mkstemp(dir=self._path)
-            os.write(fd, encode(data))
+            data = encode(data)
+            while data:
+                written = os.write(fd, data)
+                if not written:
+                    raise IOError('short write to %s' % tfile)
+                data = data[written:]
             os.close(fd)
             os.rename(tfile, filename)
 
